@@ -378,6 +378,18 @@ def run_big(c):
                 exp3 = np.einsum("nji,lnj->lni", np.linalg.inv(A.astype(float)), layers)
                 got3 = np.asarray(z3.array).reshape((3, size, n))
                 ck.check(all(C.peq_all(got3[i], exp3[i], 1, 1e-7) for i in range(3)), site + ":t*lines-with-an-extra-axis", "")
+        # round 16: TWO collection axes more than the transformations (2 x 3 layers, a non-square leading shape): transformation [k...] acts on
+        # the lines [a, b, k...] of every layer (a, b); the order of the two new axes must be the one of the argument
+        lay2 = np.stack([np.stack([np.roll(lines, a + b, axis=1) * (1.0 + a) + np.array([float(b), 0, 0]) for b in range(3)]) for a in range(2)])
+        lay2[~np.any(lay2, axis=3), 0] = 1
+        L4 = G.LineCollection(lay2.reshape((2, 3) + grid + (n,)))
+        z4, f = call(site + ":apply-lines-with-two-extra-axes", lambda: t * L4)
+        if f:
+            ck.add(f)
+        elif ck.check(np.shape(z4.array) == (2, 3) + grid + (n,), site + ":t*lines-with-two-extra-axes:shape", np.shape(z4.array)):
+            exp4 = np.einsum("nji,abnj->abni", np.linalg.inv(A.astype(float)), lay2)
+            got4 = np.asarray(z4.array).reshape((2, 3, size, n))
+            ck.check(all(C.peq_all(got4[a, b], exp4[a, b], 1, 1e-7) for a in range(2) for b in range(3)), site + ":t*lines-with-two-extra-axes", "")
     return ck.result()
 
 
